@@ -1175,3 +1175,210 @@ Proof.
   rewrite (ns_mon_run_ok c Hwf evs _ (ns_init_inv c est0 Hwf) (ns_init_budget est0 evs Hnd)).
   reflexivity.
 Qed.
+
+(* ---------------------------------------------------------------- statements for Properties_C08 *)
+Lemma ns_run_budget c : ns_wf c -> forall evs s, ns_inv c s -> ns_budget s evs ->
+  ns_budget (ns_run c s evs) [].
+Proof.
+  intros Hwf. induction evs as [|e r IH]; intros s Hi Hb; [exact Hb|].
+  cbn [ns_run]. apply IH; [apply ns_step_inv; assumption|apply ns_step_budget; assumption].
+Qed.
+
+(* bound, on the state and on the trace: the in-flight set that the checker computes from the
+   wire alone is the set of this session's CON nodes in the send queue, con_active is its size *)
+Theorem ns_bound c est0 evs : ns_wf c -> NoDup (ns_sub_mids evs) ->
+  let s := ns_run c (ns_init est0) evs in
+  ns_act s = Z.of_nat (length (ns_sq s)) /\
+  forallb ns_ncon (ns_sq s) = true /\
+  Z.of_nat (length (ns_sq s)) <= ns_nstart c /\
+  forallb ns_cnt0 (ns_dq s) = true /\
+  exists m, ns_mon_run c (ns_mkmon true est0 [] []) (ns_trace c (ns_init est0) evs) = Some m /\
+            ns_minfl m = map ns_nmsg (ns_sq s) /\ ns_mpend m = map ns_nmsg (ns_dq s) /\
+            Z.of_nat (length (ns_minfl m)) <= ns_nstart c.
+Proof.
+  intros Hwf Hnd s.
+  pose proof (ns_run_inv c Hwf evs _ (ns_init_inv c est0 Hwf)) as Hi. fold s in Hi.
+  pose proof (iv_act _ _ Hi) as Ha. pose proof (iv_le _ _ Hi) as Hl.
+  split; [exact Ha|]. split; [exact (iv_con _ _ Hi)|]. split; [lia|]. split; [exact (iv_cnt _ _ Hi)|].
+  exists (ns_abs s). split.
+  - change (ns_mkmon true est0 [] []) with (ns_abs (ns_init est0)).
+    apply ns_mon_run_ok; [exact Hwf|apply ns_init_inv; exact Hwf|apply ns_init_budget; exact Hnd].
+  - cbn [ns_abs ns_minfl ns_mpend]. rewrite map_length. repeat split. lia.
+Qed.
+
+(* nothing waits without a reason *)
+Theorem ns_no_needless_hold c est0 evs : ns_wf c ->
+  let s := ns_run c (ns_init est0) evs in
+  ns_est s = true ->
+  match ns_dq s with
+  | [] => True
+  | q :: _ => ns_ncon q = true /\ Z.of_nat (length (ns_sq s)) = ns_nstart c
+  end.
+Proof.
+  intros Hwf s He.
+  pose proof (ns_run_inv c Hwf evs _ (ns_init_inv c est0 Hwf)) as Hi. fold s in Hi.
+  pose proof (iv_qui _ _ Hi He) as Hq. pose proof (iv_act _ _ Hi) as Ha.
+  destruct (ns_dq s); [exact I|]. cbn [ns_quiet] in Hq. destruct Hq. split; [assumption|lia].
+Qed.
+
+(* a NON on an established session goes out inside coap_send(), whatever is waiting *)
+Theorem ns_non_not_delayed c s m :
+  ns_open s = true -> ns_est s = true -> ns_con m = false ->
+  ns_step c s (NsSubmit m) = (s, [NsAcc; NsTx m]).
+Proof.
+  intros Ho He Hc. unfold ns_step, ns_submit. rewrite Ho, He, Hc. reflexivity.
+Qed.
+
+Lemma ns_closed_silent c : forall evs s, ns_open s = false ->
+  ns_txs (flat_map snd (ns_trace c s evs)) = [] /\ ns_res (flat_map snd (ns_trace c s evs)) = [].
+Proof.
+  induction evs as [|e r IH]; intros s Ho; [split; reflexivity|].
+  rewrite ns_trace_cons, ns_flat_snd_cons, ns_txs_app, ns_res_app.
+  assert (E : fst (ns_step c s e) = s /\ ns_txs (snd (ns_step c s e)) = [] /\
+              ns_res (snd (ns_step c s e)) = []).
+  { unfold ns_step. rewrite Ho. cbn [negb]. destruct e; repeat split. }
+  destruct E as (E1 & E2 & E3). rewrite E1, E2, E3. apply IH. exact Ho.
+Qed.
+
+Lemma ns_fail_count c s r : ns_inv c s -> ns_budget s [] -> (r =? ns_ICMP) = false ->
+  forall q, In q (ns_dq s) -> ns_ncon q = true ->
+  ns_nack_count (ns_nmid q) (snd (ns_fail c s r)) = 1%nat.
+Proof.
+  intros Hi Hb Er q Hin Ec. unfold ns_fail. rewrite Er. ns_simp.
+  set (first := match ns_sq s with n :: _ => [NsNack r (ns_nmid n) true] | [] => [] end).
+  set (fb := match ns_lg s with m :: _ => [NsNack r m true] | [] => [NsNack r 0 false] end).
+  specialize (Hb (ns_nmid q)).
+  destruct (ns_nack_count_drops (ns_nmid q) r (ns_dq s)) as [D1 D2].
+  specialize (D2 q Hin Ec eq_refl).
+  pose proof (ns_nack_count_nacks (ns_nmid q) r (ns_sq s)) as N1.
+  rewrite !ns_nack_count_app.
+  assert (F0 : ns_nack_count (ns_nmid q) first = 0%nat).
+  { unfold first. destruct (ns_sq s) as [|n t]; [reflexivity|].
+    unfold ns_nack_count. cbn [filter].
+    destruct (ns_nmid n =? ns_nmid q) eqn:En; [|reflexivity].
+    exfalso. unfold ns_cmn, ns_cm in Hb. cbn [map count_occ] in Hb. unfold ns_nmid in En.
+    destruct (Z.eq_dec (ns_mid (ns_nmsg n)) (ns_nmid q)); [|unfold ns_nmid in *; lia].
+    unfold ns_cmn, ns_cm in D1. lia. }
+  assert (B0 : ns_nack_count (ns_nmid q)
+                (if match first with [] => match filter ns_ncon (ns_dq s) with [] => false | _ => true end
+                    | _ => true end then [] else fb) = 0%nat).
+  { destruct first; [|reflexivity].
+    destruct (filter ns_ncon (ns_dq s)) eqn:Ef; [|reflexivity].
+    exfalso. assert (In q (filter ns_ncon (ns_dq s))) by (apply filter_In; split; assumption).
+    rewrite Ef in H. exact H. }
+  unfold ns_nmid in *. rewrite F0, B0. unfold ns_cmn, ns_cm in *. lia.
+Qed.
+
+(* the session fails: every held CON gets exactly one NACK, nothing held is transmitted, then
+   or ever after *)
+Theorem ns_fail_nacks c est0 evs r : ns_wf c -> NoDup (ns_sub_mids evs) -> r <> ns_ICMP ->
+  let s := ns_run c (ns_init est0) evs in
+  ns_open s = true ->
+  let s' := fst (ns_step c s (NsFail r)) in
+  let o := snd (ns_step c s (NsFail r)) in
+  ns_dq s' = [] /\ ns_sq s' = [] /\ ns_txs o = [] /\ ns_res o = [] /\
+  (forall q, In q (ns_dq s) -> ns_ncon q = true -> ns_nack_count (ns_nmid q) o = 1%nat) /\
+  (forall evs', ns_txs (flat_map snd (ns_trace c s' evs')) = [] /\
+                ns_res (flat_map snd (ns_trace c s' evs')) = []).
+Proof.
+  intros Hwf Hnd Hr s Ho s' o.
+  pose proof (ns_run_inv c Hwf evs _ (ns_init_inv c est0 Hwf)) as Hi. fold s in Hi.
+  pose proof (ns_run_budget c Hwf evs _ (ns_init_inv c est0 Hwf) (ns_init_budget est0 evs Hnd)) as Hb.
+  fold s in Hb.
+  assert (Er : (r =? ns_ICMP) = false) by (apply Z.eqb_neq; exact Hr).
+  assert (E : ns_step c s (NsFail r) = ns_fail c s r) by (unfold ns_step; rewrite Ho; reflexivity).
+  unfold s', o. rewrite E.
+  split; [unfold ns_fail; rewrite Er; reflexivity|].
+  split; [unfold ns_fail; rewrite Er; reflexivity|].
+  assert (T : ns_txs (snd (ns_fail c s r)) = [] /\ ns_res (snd (ns_fail c s r)) = []).
+  { unfold ns_fail. rewrite Er. ns_simp.
+    rewrite !ns_txs_app, !ns_res_app, ns_txs_drops, ns_txs_nacks, ns_res_drops, ns_res_nacks.
+    destruct (ns_sq s); destruct (filter ns_ncon (ns_dq s)); destruct (ns_lg s); split; reflexivity. }
+  destruct T as [T1 T2]. split; [exact T1|]. split; [exact T2|].
+  split; [intros q Hq Hc; apply ns_fail_count; assumption|].
+  intros evs'. apply ns_closed_silent. unfold ns_fail. rewrite Er. reflexivity.
+Qed.
+
+(* soundness of the checker by itself: in any accepted history (of any implementation) the
+   number of CONs in flight - transmitted and not acknowledged, reset, given up, cancelled -
+   never exceeds NSTART *)
+Lemma ns_rm_mid_len mid l : (length (ns_rm_mid mid l) <= length l)%nat.
+Proof.
+  induction l as [|h t IH]; [apply le_n|]. cbn [ns_rm_mid].
+  destruct (ns_mid h =? mid); cbn [length]; lia.
+Qed.
+
+Lemma ns_fold_rm_len g l :
+  (length (fold_left (fun l0 mid => ns_rm_mid mid l0) g l) <= length l)%nat.
+Proof.
+  revert l. induction g as [|x g IH]; intros l; [apply le_n|]. cbn [fold_left].
+  pose proof (IH (ns_rm_mid x l)). pose proof (ns_rm_mid_len x l). lia.
+Qed.
+
+Lemma ns_mon_txs_bound nstart : forall txs infl pend infl' pend',
+  Z.of_nat (length infl) <= nstart ->
+  ns_mon_txs nstart infl pend txs = Some (infl', pend') -> Z.of_nat (length infl') <= nstart.
+Proof.
+  induction txs as [|x r IH]; intros infl pend infl' pend' Hl H.
+  - destruct pend; cbn in H; inversion H; subst; exact Hl.
+  - destruct pend as [|p pr]; [discriminate|]. cbn [ns_mon_txs] in H.
+    destruct (ns_msg_eqb x p); [|discriminate].
+    destruct (Z.of_nat (length (if ns_con x then infl ++ [x] else infl)) <=? nstart) eqn:E;
+      [|discriminate].
+    eapply IH; [|exact H]. lia.
+Qed.
+
+Lemma ns_mon_finish_bound c est infl pend o m :
+  Z.of_nat (length infl) <= ns_nstart c ->
+  ns_mon_finish c est infl pend o = Some m -> Z.of_nat (length (ns_minfl m)) <= ns_nstart c.
+Proof.
+  intros Hl H. unfold ns_mon_finish in H.
+  destruct (ns_mon_txs (ns_nstart c) infl pend (ns_txs o)) as [[i' p']|] eqn:E; [|discriminate].
+  destruct (ns_quiescent (ns_nstart c) est i' p'); [|discriminate].
+  inversion H; subst. cbn [ns_minfl]. eapply ns_mon_txs_bound; eassumption.
+Qed.
+
+Theorem ns_mon_step_bound c m e o m' : 0 <= ns_nstart c ->
+  Z.of_nat (length (ns_minfl m)) <= ns_nstart c ->
+  ns_mon_step c m e o = Some m' -> Z.of_nat (length (ns_minfl m')) <= ns_nstart c.
+Proof.
+  intros Hn Hl H. unfold ns_mon_step in H.
+  destruct (ns_mopen m).
+  2: { cbn [negb] in H. destruct e; destruct o as [|[] [|]]; inversion H; subst; assumption. }
+  cbn [negb] in H.
+  set (infl0 := fold_left (fun l mid => ns_rm_mid mid l) (ns_gaveup o) (ns_minfl m)) in *.
+  assert (H0 : Z.of_nat (length infl0) <= ns_nstart c).
+  { pose proof (ns_fold_rm_len (ns_gaveup o) (ns_minfl m)). unfold infl0. lia. }
+  destruct (negb (forallb _ (ns_res o))); [discriminate|].
+  destruct e as [x|mid|mid|mid|tok| |r].
+  - destruct (ns_accepted o).
+    + destruct (ns_txs o) as [|y [|]]; [| |discriminate].
+      * destruct (ns_mest m && negb (ns_con x)); [discriminate|].
+        destruct (ns_quiescent _ _ _ _); inversion H; subst; exact H0.
+      * destruct (ns_msg_eqb y x && ns_mest m); [|discriminate].
+        destruct (Z.of_nat (length (if ns_con x then infl0 ++ [x] else infl0)) <=? ns_nstart c) eqn:E;
+          inversion H; subst. cbn [ns_minfl]. lia.
+    + destruct (ns_txs o); [|discriminate].
+      destruct (existsb _ (ns_mpend m)); inversion H; subst; exact H0.
+  - eapply ns_mon_finish_bound; [|exact H]. pose proof (ns_rm_mid_len mid infl0). lia.
+  - eapply ns_mon_finish_bound; [|exact H]. pose proof (ns_rm_mid_len mid infl0). lia.
+  - destruct (existsb _ (ns_minfl m) && _); [discriminate|].
+    eapply ns_mon_finish_bound; [|exact H]. exact H0.
+  - eapply ns_mon_finish_bound; [|exact H].
+    pose proof (ns_filter_split (fun y => ns_tok y =? tok) infl0). cbn beta in *. lia.
+  - eapply ns_mon_finish_bound; [|exact H]. exact H0.
+  - destruct (r =? ns_ICMP).
+    + destruct (ns_txs o); inversion H; subst; exact H0.
+    + destruct (ns_txs o); [|discriminate].
+      destruct (forallb _ (ns_mpend m)); inversion H; subst. cbn. exact Hn.
+Qed.
+
+Theorem ns_accepts_bound c : 0 <= ns_nstart c -> forall t m m',
+  Z.of_nat (length (ns_minfl m)) <= ns_nstart c ->
+  ns_mon_run c m t = Some m' -> Z.of_nat (length (ns_minfl m')) <= ns_nstart c.
+Proof.
+  intros Hn. induction t as [|[e o] r IH]; intros m m' Hl H.
+  - inversion H; subst; exact Hl.
+  - cbn [ns_mon_run] in H. destruct (ns_mon_step c m e o) as [m1|] eqn:E; [|discriminate].
+    eapply IH; [|exact H]. eapply ns_mon_step_bound; eassumption.
+Qed.
